@@ -341,7 +341,9 @@ prop("C15", level="exploration", engine="vderive",
      technique="exhaustive boundary enumeration of (source, position, n) incl. wrap-around values, with catch_unwind and numeric span validation before any slicing, in dev/release x default/forbid_unsafe builds",
      text="bump(n) returns normally iff end+n <= len (unbounded arithmetic) and lands on a boundary, panics otherwise, and in both cases leaves a span that is a valid range of the source.",
      note="Panics are caught with catch_unwind; slices are only requested after the span has been validated numerically.", design_ref="5 C15",
-     steps=[step_vderive("c15", ["tc-u-dev", "tc-u-rel", "tc-f-dev", "tc-f-rel"], ["tc-u-dev", "tc-u-rel", "tc-f-dev", "tc-f-rel", "sm-u-rel"])], assumptions=[])
+     steps=[step_vderive("c15", ["tc-u-dev", "tc-u-rel", "tc-f-dev", "tc-f-rel"], ["tc-u-dev", "tc-u-rel", "tc-f-dev", "tc-f-rel", "sm-u-rel"]),
+            # bumps made from inside callbacks (enums M, MB, MK of the callback sweep): spans stay valid ranges
+            step_vderive("c13", ["tc-u-dev", "sm-u-dev"], ["tc-u-dev", "sm-u-dev", "tc-u-rel", "sm-u-rel"])], assumptions=[])
 
 prop("C17", level="exploration", engine="vgraph + real logos-cli binary",
      technique="exhaustive enumeration of an enum-source grammar through the real logos-cli binary against an independent syn-based stripping oracle + generate(); breadth-first exploration of all write/--check/edit histories up to depth 4 against a four-state file model",
